@@ -2202,7 +2202,10 @@ namespace awkward {
                         reducer.returns_positions()  &&
                         !branchdepth.first  && negaxis == branchdepth.second);
 
-    Index64 nextshifts(make_shifts ? index_.length() - numnull : 0);
+    // An IndexedArray (not option-type) drops no elements: positions computed
+    // by the enclosing list carry over unchanged.
+    Index64 nextshifts = make_shifts ? Index64(index_.length() - numnull)
+                                     : (isoption() ? Index64(0) : shifts);
     if (make_shifts) {
       if (shifts.length() == 0) {
         struct Error err3 =
